@@ -32,13 +32,14 @@ type xl struct {
 	opaquePs []xlParam
 	touched  map[string]bool // flattened-receiver / opaque parameters referenced (loops capture them)
 	// translate_dom.go
-	optVars   map[types.Object]bool // variables of Lean type `Option …` (may be nil)
-	paramObjs map[types.Object]bool
-	acc       *types.Var // accumulator parameter (`res *[]T`)
-	inGroup   map[*types.Func]bool
-	recPs     []xlParam         // recursive callees of the current group (`rec_<fn>`)
-	dispatch  map[string]string // interface method name -> dispatcher of the current group
-	flatKeys  []string
+	optVars                      map[types.Object]bool // variables of Lean type `Option …` (may be nil)
+	paramObjs                    map[types.Object]bool
+	acc                          *types.Var // accumulator parameter (`res *[]T`)
+	inGroup                      map[*types.Func]bool
+	recPs                        []xlParam         // recursive callees of the current group (`rec_<fn>`)
+	dispatch                     map[string]string // interface method name -> dispatcher of the current group
+	flatKeys                     []string
+	goParamNames, leanParamNames []string // parameters by position (`$k` in fuel expressions)
 }
 
 type xlParam struct{ name, typ string }
